@@ -431,6 +431,8 @@ type FuncContract struct {
 	TrustedEnsures []*Clause
 	// AtCall: assertions checked in the caller's state at every call of the named callee
 	AtCall map[string][]*Clause
+	// AtStmt: assertions checked immediately before every simple statement whose (gofmt-normalised) text is the key
+	AtStmt map[string][]*Clause
 }
 
 type SpecFunc struct {
@@ -581,7 +583,7 @@ func ParseContractText(data, path, pkg string) (*ContractFile, error) {
 	keywords := map[string]bool{"section": true, "spec": true, "func": true, "lemma": true, "type": true, "property": true, "mode": true,
 		"requires": true, "ensures": true, "modifies": true, "loop": true, "inline": true, "allow": true, "assumed": true,
 		"ghost": true, "invariant": true, "opt": true, "uses": true, "axiom": true, "thorough": true, "pure": true, "trusted": true,
-		"backends": true, "timeout": true, "decl": true, "opaque": true, "inline-loop": true, "at-call": true, "impl": true}
+		"backends": true, "timeout": true, "decl": true, "opaque": true, "inline-loop": true, "at-call": true, "at-stmt": true, "impl": true}
 	var raws []rawClause
 	for i, ln := range strings.Split(data, "\n") {
 		t := strings.TrimSpace(ln)
@@ -844,6 +846,28 @@ func ParseContractText(data, path, pkg string) (*ContractFile, error) {
 				curF.AtCall = map[string][]*Clause{}
 			}
 			curF.AtCall[f[0]] = append(curF.AtCall[f[0]], c)
+		case "at-stmt":
+			// at-stmt "<statement text>" requires [label:] <expr>
+			if curF == nil {
+				return nil, errf(rc, "at-stmt outside func")
+			}
+			t := strings.TrimSpace(rc.text)
+			if !strings.HasPrefix(t, "\"") {
+				return nil, errf(rc, "at-stmt \"<statement>\" requires <expr>")
+			}
+			end := strings.Index(t[1:], "\" requires ")
+			if end < 0 {
+				return nil, errf(rc, "at-stmt \"<statement>\" requires <expr>")
+			}
+			stmtText := strings.Join(strings.Fields(t[1:1+end]), " ")
+			c, err := parseClause(strings.TrimSpace(t[1+end+len("\" requires "):]), rc.line)
+			if err != nil {
+				return nil, fmt.Errorf("%s: %v", path, err)
+			}
+			if curF.AtStmt == nil {
+				curF.AtStmt = map[string][]*Clause{}
+			}
+			curF.AtStmt[stmtText] = append(curF.AtStmt[stmtText], c)
 		case "impl":
 			if curT != nil {
 				curT.Impl = strings.TrimSpace(rc.text)
